@@ -24,7 +24,7 @@ var classBytes = map[byte][][]byte{
 	'H': {{0xc3}, {0xe4}, {0xf0}},                         // a lead byte without continuation
 	'T': {{0xe4, 0xb8}, {0xf0, 0x9f}, {0xe2, 0x80}},       // a multi-byte character cut short
 	'J': {[]byte("\xe4\xb8\xad"), []byte("\xe3\x81\x82"), []byte("\xef\xbd\xb1"), []byte("\xed\x95\x9c")}, // 中 あ ｱ 한
-	'M': {[]byte("\xcc\x81"), []byte("\xcc\x88"), []byte("\xd9\x8e")},                                     // combining acute, diaeresis, arabic fatha
+	'M': {[]byte("\xcc\x81"), []byte("\xcc\x88"), []byte("\xd9\x8e"), []byte("\xef\xbe\x9e"), []byte("\xef\xbe\x9f")},                                     // combining acute, diaeresis, arabic fatha
 	'Z': {[]byte("\xe2\x80\x8c"), []byte("\xe2\x80\x8d"), []byte("\xe2\x80\x8b")},                         // ZWNJ, ZWJ, ZWSP
 }
 
@@ -98,6 +98,27 @@ func generatedInputs(c *core.Ctx, n int) ([]input, error) {
 		return nil, fmt.Errorf("TLC generated %d inputs, expected %d", len(out), want)
 	}
 	return out, nil
+}
+
+// altInputs: every class string of length <= 2 with EVERY alternative byte sequence
+// of its classes (the TLC enumeration concretises each class by its first
+// alternative only): short tokens that start or end with an unusual character,
+// e.g. a halfwidth voiced sound mark with nothing before it.
+func altInputs() []input {
+	var out []input
+	for i := 0; i < len(classOrder); i++ {
+		a := classOrder[i]
+		for _, ab := range classBytes[a] {
+			out = append(out, input{Class: string([]byte{a}), Bytes: append([]byte{}, ab...), Seed: -1})
+			for j := 0; j < len(classOrder); j++ {
+				b := classOrder[j]
+				for _, bb := range classBytes[b] {
+					out = append(out, input{Class: string([]byte{a, b}), Bytes: append(append([]byte{}, ab...), bb...), Seed: -1})
+				}
+			}
+		}
+	}
+	return out
 }
 
 // seededInputs: long and mixed inputs (very long tokens, many tokens, mixed scripts, invalid bytes
